@@ -73,7 +73,7 @@ class HookFunction:
             if self.wrapper:
                 gen = self.function(instance, **extra_args)
                 next(gen)
-                gen.send(self.hook.get_result(instance))
+                gen.send(getattr(type(instance), self.hook.name).get_result(instance))
                 raise SyntaxError("Wrapper function must only contain one yield expression.")
             else:
                 result = self.function(instance, **extra_args)
